@@ -276,7 +276,7 @@ fn run_child(dir: &Path, io: usize, cf: u64, flush: bool, snap: Option<&Path>) -
 enum Op { Ingest(Vec<(String, Vec<i64>)>), Flush, Restart }
 
 #[derive(Clone, Debug)]
-struct Workload { io: usize, cf: u64, ops: Vec<Op>, name: String }
+struct Workload { io: usize, cf: u64, ops: Vec<Op>, name: String, all_modes: bool }
 
 fn batches(shares: &[(String, Vec<i64>)]) -> Vec<Batch> {
     shares.iter().map(|(t, ids)| Batch {
@@ -299,7 +299,36 @@ fn workload(shape: &str, io: usize, cf: u64, rng: &mut Rng) -> Workload {
             _ => Op::Restart,
         });
     }
-    Workload { io, cf, ops, name: format!("{}/io{}/cf{}", shape, io, cf) }
+    Workload { io, cf, ops, name: format!("{}/io{}/cf{}", shape, io, cf), all_modes: true }
+}
+
+/// Inverse of `ops_token` (compaction decisions are dropped: they are observed again).
+fn ops_from_token(tok: &str) -> Vec<Op> {
+    tok.split(';').map(|o| {
+        let f: Vec<&str> = o.split(':').collect();
+        match f[0] {
+            "I" => Op::Ingest(f[1..].iter().map(|sh| { let (t, ids) = sh.split_once('=').unwrap(); (t.to_string(), ids.split('.').filter(|x| !x.is_empty()).map(|x| x.parse().unwrap()).collect()) }).collect()),
+            "F" => Op::Flush,
+            _ => Op::Restart,
+        }
+    }).collect()
+}
+
+/// `--replay <file>`: a replay written by `check` (JSON, `first.model_line`) or a file whose first line is a model line.
+/// The workload of that line (same tables, rows, io_threads, combine factor) is run again with EVERY crash point,
+/// truncation class and mode (pool interleavings may differ from the recorded run, so a single index would not be faithful).
+fn replay_workload(path: &Path) -> Workload {
+    // `check` starts the harness in its output directory: a relative path is relative to /verif
+    let alt = Path::new(env!("CARGO_MANIFEST_DIR")).parent().unwrap().join(path);
+    let txt = std::fs::read_to_string(path).or_else(|_| std::fs::read_to_string(&alt)).unwrap_or_else(|e| { eprintln!("[c09] cannot read replay file {:?}: {}", path, e); std::process::exit(2) });
+    let line = if txt.trim_start().starts_with('{') {
+        let j: serde_json::Value = serde_json::from_str(&txt).expect("replay json");
+        let f = if j.get("first").is_some() { j["first"].clone() } else { j.clone() };
+        f["model_line"].as_str().expect("model_line").to_string()
+    } else { txt.lines().next().unwrap_or("").to_string() };
+    let t: Vec<&str> = line.split(' ').collect();
+    assert!(t.len() >= 4 && t[0] == "crash", "not a C09 model line");
+    Workload { io: t[1].parse().unwrap(), cf: t[2].parse().unwrap(), ops: ops_from_token(t[3]), name: format!("replay/io{}/cf{}", t[1], t[2]), all_modes: true }
 }
 
 fn ops_token(ops: &[Op], compactions: &[String]) -> String {
@@ -432,7 +461,7 @@ fn run_workload(ctx: &Ctx, w: &Workload, seed: u64, work: &Path, budget_points: 
     }
 
     let next = AtomicUsize::new(0);
-    let nworkers = 6;
+    let nworkers = 8;
     let l2_seed = seed;
     std::thread::scope(|s| {
         for wk in 0..nworkers {
@@ -455,8 +484,8 @@ fn run_workload(ctx: &Ctx, w: &Workload, seed: u64, work: &Path, budget_points: 
                     }
                     let common = format!("{} {} {} {} {}", head, at, trunc, r.acked, if r.inflight { 1 } else { 0 });
                     let pick = (l2_seed as usize + k * 7 + at) % 4;
-                    let do_flush = ctx.thorough || pick == 0 || (r.file.starts_with('w') && r.label != "store:begin");
-                    let do_l2 = ctx.thorough || pick == 1 || r.label == "delete:begin" || (r.file == "m" && r.label == "store:renamed");
+                    let do_flush = (ctx.thorough && w.all_modes) || pick == 0 || (r.file.starts_with('w') && r.label != "store:begin");
+                    let do_l2 = (ctx.thorough && w.all_modes) || pick == 1 || r.label == "delete:begin" || (r.file == "m" && r.label == "store:renamed");
                     // first and second open on one copy
                     let a = work.join(format!("open-{}-{}", wk, k));
                     let _ = std::fs::remove_dir_all(&a);
@@ -517,9 +546,17 @@ fn main() {
     if std::env::var("C09_LOUD").is_err() { quiet_panics(); }
     let mut rng = Rng::new(args.seed);
     let t0 = Instant::now();
-    let ctx = Ctx { cases: Mutex::new(Cases::create(&args.out)), crash_points: AtomicUsize::new(0), opens: AtomicUsize::new(0), thorough: args.thorough() };
+    let ctx = Ctx { cases: Mutex::new(Cases::create(&args.out)), crash_points: AtomicUsize::new(0), opens: AtomicUsize::new(0), thorough: args.thorough() || args.replay.is_some() };
     let tmp = tempfile::tempdir().unwrap();
     let work = tmp.path().join("w");
+    if let Some(p) = &args.replay {
+        let w = replay_workload(p);
+        run_workload(&ctx, &w, args.seed, &work, usize::MAX, &mut rng);
+        eprintln!("[c09] replay {} done: crash points {} opens {} wall {:.1}s", w.name, ctx.crash_points.load(Ordering::SeqCst), ctx.opens.load(Ordering::SeqCst), t0.elapsed().as_secs_f64());
+        let Ctx { cases, .. } = ctx;
+        cases.into_inner().unwrap().finish();
+        return;
+    }
 
     // designed workloads: (shape, io, cf)
     let mut plan: Vec<(String, usize, u64, usize)> = vec![];
@@ -535,7 +572,7 @@ fn main() {
         // File::create and rename of wal/0.wal (torn and complete temp file), io_threads 1 (panic path) and 4 (hang path);
         // every crash point, every truncation class, every mode
         plan.push(("a".to_string(), 4, 4, usize::MAX));
-        for (s, io, cf) in quick { plan.push((s.to_string(), io, cf, if s == "a" { usize::MAX } else { 26 })); }
+        for (s, io, cf) in quick { plan.push((s.to_string(), io, cf, if s == "a" { usize::MAX } else { 22 })); }
     } else {
         plan.push(("a".to_string(), 4, 4, usize::MAX));
         for (s, io, cf) in quick { plan.push((s.to_string(), io, cf, usize::MAX)); }
@@ -551,7 +588,7 @@ fn main() {
             if !s.contains('a') && !s.contains('c') { continue; }
             let cf = [0u64, 1, 4, 999][(i + args.seed as usize) % 4];
             let io = if (i / 4 + args.seed as usize) % 3 == 0 { 4 } else { 1 };
-            plan.push((s.clone(), io, cf, usize::MAX));
+            plan.push((s.clone(), io, cf, usize::MAX - 1)); // enumerated shape: every crash point, modes sampled
         }
         for _ in 0..14 {
             let len = 4 + rng.below(3) as usize;
@@ -559,11 +596,18 @@ fn main() {
             plan.push((s, *rng.pick(&[1usize, 4]), *rng.pick(&[0u64, 1, 4, 999]), usize::MAX));
         }
     }
+    // wall-clock budget (the generic runner kills a harness after 3000 s and reports that as a failure): on an overloaded
+    // machine the remaining workloads are skipped — every workload that was started is completed and checked in full
+    let budget_s: u64 = std::env::var("C09_BUDGET_S").ok().and_then(|s| s.parse().ok()).unwrap_or(if args.thorough() { 2400 } else { 1500 });
+    let mut skipped = 0;
     for (i, (shape, io, cf, budget)) in plan.iter().enumerate() {
-        let w = workload(shape, *io, *cf, &mut rng);
+        let mut w = workload(shape, *io, *cf, &mut rng);
+        w.all_modes = *budget != usize::MAX - 1;
+        if t0.elapsed().as_secs() > budget_s { skipped += 1; continue; }
         run_workload(&ctx, &w, args.seed.wrapping_add(i as u64 * 31), &work, *budget, &mut rng);
         eprintln!("[c09] {} done: crash points {} opens {} t={:.0}s", w.name, ctx.crash_points.load(Ordering::SeqCst), ctx.opens.load(Ordering::SeqCst), t0.elapsed().as_secs_f64());
     }
+    if skipped > 0 { eprintln!("[c09] time budget of {} s exhausted: {} of {} workloads skipped", budget_s, skipped, plan.len()); }
     eprintln!("[c09] flaky opens (abnormal first attempt, normal retry): {}", FLAKY.load(Ordering::SeqCst));
     eprintln!("[c09] crash points {} child opens {} wall {:.1}s", ctx.crash_points.load(Ordering::SeqCst), ctx.opens.load(Ordering::SeqCst), t0.elapsed().as_secs_f64());
     let Ctx { cases, .. } = ctx;
